@@ -343,12 +343,12 @@ def run(ctx):
             m = t[key] / bound
             wk = key + ("/(output resolution + scale x 2^(1-bits))" if key == "dtype_err" else "/2^(1-bits)")
             # known finding F-PH1 on DC / spectral clauses (F-SG4 is repaired in /repo, cd8ddc4: the scale / datatype clauses carry no allowance)
-            if t["flags"].get("F-PH1") and key in ("dc_err", "dc_scaled_err", "shift_reduced_err"):
-                wk += " [F-PH1 signature]"
+            if (t["flags"].get("F-PH1") or t["flags"].get("F-SG7")) and key in ("dc_err", "dc_scaled_err", "shift_reduced_err"):
+                wk += " [F-PH1 / F-SG7 signature]"
             worst[wk] = max(worst.get(wk, 0), m)
             if m > 1 and key in ("dc_err", "dc_scaled_err", "shift_reduced_err"):
                 fid = S.known_excess(t, "rowsum" if key.startswith("dc") else "res", m)
-                if fid == "F-PH1":
+                if fid in ("F-PH1", "F-SG7"):
                     ctx.known(fid, S.known_text(fid, t, "%s: differs by %.3g of full scale = %.2f x 2^(1-bits)" % (what, t[key], m)))
                     continue
             if m > 1:
@@ -409,8 +409,8 @@ def run(ctx):
         "checks/_signal.py only returns if an F1 entry is listed as known again)",
         "datatype clause: the typed run may differ from io_spec.scale x the float64 run by the output format's resolution (integer rounding, TPDF "
         "dither for int16, float32 mantissa) plus scale x 2^(1-bits)",
-        "known finding F-PH1 (known_findings.d/signal.json) is recognised on the DC / row-sum / reduced-period clauses by a configuration/plan signature "
-        "AND a symptom bound; its margins are listed separately under worst_margins ([F-PH1 signature]); F-SG4 (first poly-phase tap not scaled by "
+        "known findings F-PH1 and F-SG7 (known_findings.d/signal.json) are recognised on the DC / row-sum / reduced-period clauses by a configuration/plan "
+        "signature AND a symptom bound; their margins are listed separately under worst_margins ([F-PH1 / F-SG7 signature]); F-SG4 (first poly-phase tap not scaled by "
         "the gain) is repaired in /repo (cd8ddc4, listed as fixed): the scale / DC / datatype clauses are held to their ordinary tolerance everywhere",
     )
     if broken and not ctx.violations:
